@@ -60,7 +60,7 @@ def run(ctx: Ctx) -> None:
     files = scope(ctx)
     if len(files) < 30:
         raise AnalysisError(f"C17 scope shrank to {len(files)} modules")
-    family_e.run_for(ctx, "R17.1", files, floor=40,
+    family_e.run_for(ctx, "R17.1", files, floor=25,
                      statement="no set's iteration order reaches an ordered result (family E)")
     ctx.rule("R17.2", "output canonicalisation: sorted notes, qualifier keys and features", floor=3)
     r17_2(ctx)
